@@ -229,7 +229,88 @@ func c15worker(c *hx.Ctx) int {
 			}
 		}
 	}
+	if c.Worker == 0 {
+		c15sequential(rep, sets)
+	}
 	sets.Flush(rep)
 	hx.EmitWorkerReport(rep)
 	return 0
+}
+
+// c15sequential: one thread, every pattern (valid, with inline flags, invalid fragments that would
+// join into something valid) after every other pattern, through the Pattern helper and through objects
+// with one or two pattern properties (with and without additionalProperties:false). Each answer must
+// be the one Go's regexp gives for that very pattern, an invalid pattern never matching.
+func c15sequential(rep *hx.Report, sets *hx.SetAdder) {
+	pats := []string{"^a+$", "^b+$", "(?i)^x-", "^id$", "(b", "a)", `a\`, "b", "é", "^$", "[", "^(a|b)$"}
+	keys := []string{"aa", "bb", "ID", "Id", "x-A", "X-a", "a", "b", "a|b", "é", "", "ab"}
+	match := func(p, k string) (matches, valid bool) {
+		re, err := regexp.Compile(p)
+		if err != nil {
+			return false, false
+		}
+		return re.MatchString(k), true
+	}
+	fail := func(sig, what string) {
+		rep.AddViolation(hx.Violation{Signature: "sequential: " + sig, What: what, Replay: map[string]any{"case": what}})
+	}
+	for _, first := range append([]string{""}, pats...) {
+		for _, p := range pats {
+			for _, k := range keys {
+				validate.VerifSetRegexpCache()
+				if first != "" {
+					validate.Pattern("w", "q", "x", first)
+				}
+				rep.Inc("sequential_cases", 1)
+				got := c15call{"pattern", k, p}.do()
+				m, ok := match(p, k)
+				want := "no-match"
+				if !ok {
+					want = "invalid-pattern"
+				} else if m {
+					want = "match"
+				}
+				sets.Add("observations", got)
+				if got != want {
+					fail(fmt.Sprintf("Pattern(%q,%q) after %q", k, p, first), fmt.Sprintf("after using pattern %q, Pattern(%q, %q) answered %s, Go regexp says %s", first, k, p, got, want))
+				}
+			}
+		}
+	}
+	for i, p1 := range pats {
+		for j, p2 := range pats {
+			if j <= i {
+				continue
+			}
+			for _, k := range keys {
+				for variant := 0; variant < 2; variant++ {
+					validate.VerifSetRegexpCache()
+					rep.Inc("sequential_cases", 1)
+					m1, _ := match(p1, k)
+					m2, _ := match(p2, k)
+					var schema string
+					var want bool
+					if variant == 0 {
+						schema = fmt.Sprintf(`{"patternProperties":{%q:{},%q:{}},"additionalProperties":false}`, p1, p2)
+						want = m1 || m2
+					} else {
+						schema = fmt.Sprintf(`{"patternProperties":{%q:{"type":"integer"},%q:{"type":"string"}}}`, p1, p2)
+						want = !m2
+					}
+					sch, err := parseSpecSchema(schema)
+					if err != nil {
+						continue
+					}
+					o := againstSpec(sch, map[string]any{k: 1.0}, strfmt.Default)
+					if o.Panic != "" {
+						fail(fmt.Sprintf("panic with patterns %q, %q", p1, p2), fmt.Sprintf("schema %s on {%q:1} panics: %s", schema, k, o.Panic))
+						continue
+					}
+					if o.Valid != want {
+						fail(fmt.Sprintf("patternProperties %q + %q, key %q, variant %d", p1, p2, k, variant), fmt.Sprintf("schema %s on {%q:1}: valid=%v, but matching each pattern with Go regexp (invalid ones never match) gives valid=%v", schema, k, o.Valid, want))
+					}
+				}
+			}
+		}
+	}
 }
